@@ -62,7 +62,7 @@ theorem c03_gate_iff (w : W) (p : Nat) (lf : LF) (d : Dg) :
     history of datagrams, bind / unbind / subscribe calls, entity removed / added notifications, disconnects and
     connects by any peers that starts without bindings, a write is let through iff its function is announced writable
     and the SPEC registry — folded from the registry events of the earlier operations: granted, deleted, entity gone,
-    peer gone — holds (server, connection, client) at that moment. No caching can hide: the gate is a function of
+    entities no longer listed by a full announcement, peer gone — holds (server, connection, client) at that moment. No caching can hide: the gate is a function of
     the state. `opOk`: every "entity added" notification announces at least one feature of the entity. -/
 theorem c03_follows_registry (w0 : W) (ops : List Op) (hu : w0.cfg.unbindDisjunct = false)
     (he : w0.cfg.entRemovalAnyPeer = false) (h0 : w0.binds = []) (hF : InvF w0) (hok : ∀ op ∈ ops, opOk w0.fresh op)
@@ -135,6 +135,25 @@ example :
       (hierD ([1], 1) ([1], 1)) = false ∧
     gateOk (run hierW (bindParent ++ [.entAdd 1 [1] 11 true, .call 1 12 true (.unbind ([1], 1) ([1], 1))])) 1 witLF1
       (hierD ([1], 1) ([1], 1)) = false := by decide
+
+/-- a FULL discovery notification that REPLACES an entity — [1] no longer listed, [1,1] new: the count of entities stays
+    the same — is the registry event `entitiesGone`: the binding held by [1]/1 is gone, a write from [1]/1 is no longer
+    let through, also not after [1] is announced again (without a new binding); a full notification that changes nothing
+    is an error and changes nothing -/
+def fullW : W :=
+  { cleanW with fresh := ⟨[⟨[0], 0, [901], 9, .special⟩, ⟨[1], 1, [5], 1, .client⟩, ⟨[1, 1], 1, [5], 1, .client⟩], 3, []⟩ }
+example :
+    let pre : List Op := [.conn 1, .full 1 [[0], [1]] 9 false, .call 1 10 true (.bind ([1], 1) ([1], 1) 1)]
+    entsOf (run fullW pre) 1 = [[0], [1]] ∧
+    gateOk (run fullW pre) 1 witLF1 (hierD ([1], 1) ([1], 1)) = true ∧
+    evOf (run fullW pre) (.full 1 [[0], [1, 1]] 11 true) = .entitiesGone 1 [[1]] ∧
+    entsOf (run fullW (pre ++ [.full 1 [[0], [1, 1]] 11 true])) 1 = [[0], [1, 1]] ∧
+    gateOk (run fullW (pre ++ [.full 1 [[0], [1, 1]] 11 true])) 1 witLF1 (hierD ([1], 1) ([1], 1)) = false ∧
+    gateOk (run fullW (pre ++ [.full 1 [[0], [1, 1]] 11 true, .full 1 [[0], [1], [1, 1]] 12 true])) 1 witLF1
+      (hierD ([1], 1) ([1], 1)) = false ∧
+    (step (run fullW pre) (.full 1 [[0], [1]] 11 true)).2 =
+      [(1, .result (some 11) 1 ([0], 0) ([0], 0) (some 0)), (1, .readReq 901 ([0], 0) ([0], 0))] ∧
+    gateOk (step (run fullW pre) (.full 1 [[0], [1]] 11 true)).1 1 witLF1 (hierD ([1], 1) ([1], 1)) = true := by decide
 
 example : ∀ op ∈ witEntOps ++ [Op.entAdd 2 [1] 12 true], opOk cleanW.fresh op := by
   intro op hop
